@@ -378,13 +378,16 @@ class CHECK(ThresholdCheck):
                    "operations are exactly collinear with the model's bracket; tolerance 1e-12 on O(1) quantities (measured max deviation 6.7e-16)")
     trusted = ("pandas groupby / sort_values(by=[x,y]) stability, np.searchsorted, np.linspace, Series.idxmax are "
                "modelled by their specification (stable lexicographic sort, count of values <= g, i/N, first maximum)",
-               "np.around(.,15) before the equalized-odds arg-max and IEEE rounding are not modelled (exact arg-max; "
-               "ties within 1e-12 accepted)",
+               "np.around(., d) before the equalized-odds arg-max (d = 15 is lifted: ThresholdFitSrc.aroundDecimals) is the "
+               "IDENTITY on the exact model (Threshold.aroundModel / aroundModel_eq) and IEEE rounding is not modelled (exact "
+               "arg-max; ties within 1e-12 accepted: the model is then evaluated at the implementation's index)",
                "the pass-through estimator (predict returns the score column) stands for an arbitrary prefit scorer",
                "IEEE rounding of the threshold midpoint is not modelled: the generator keeps every midpoint of two near-tie "
                "scores exactly representable (t >= 1); the remaining case (adjacent doubles) is known finding F18",
                "comparisons with +-inf thresholds, numpy boolean masks and RandomState.rand are modelled by their specification")
-    assumptions = ("every group contains both labels", "scores are finite", "grid_size >= 1")
+    assumptions = ("every group contains both labels", "scores are finite", "grid_size >= 1",
+                   "np.around(objective, 15) only merges objective values that differ by float noise (< 1e-12): it is modelled "
+                   "as the identity on exact rationals (Threshold.aroundModel_eq)")
 
     def exhaustive(self, tier):
         cyc = tc.cfg_cycle()
